@@ -217,6 +217,18 @@ pub fn run(cfg: &Config) -> i32 {
         if let Some((_, env)) = docs.iter().find(|d| d.0 == mt) {
             let mut j = env.clone();
             j["fields"] = body;
+            // the same point with its first / last sequence occurrence repeated: the rule then fails in several
+            // occurrences, which is where the order of the stop-on-first-error result shows
+            if let Some(Value::Array(a)) = j["fields"].get("#")
+                && !a.is_empty()
+            {
+                let (first, last) = (a[0].clone(), a[a.len() - 1].clone());
+                for rep in [vec![first.clone(), first], vec![last.clone(), last.clone(), last]] {
+                    let mut j2 = j.clone();
+                    j2["fields"]["#"] = Value::Array(rep);
+                    extra.push((mt.clone(), j2, "c04-point-repeated"));
+                }
+            }
             extra.push((mt, j, "c04-point"));
         }
     }
